@@ -209,10 +209,14 @@ package iso7816
 //@   ensures err != nil ==> out == nil
 //@   assigns nfc.lastApduLogEntry, content(nfc.apduLog), content(nfc.sm), nfc.lastSW
 //@   safety all
+// iaChallenge(out): ghost attribute of the response buffer of INTERNAL AUTHENTICATE - the command data it answers.
+//@ uf iaChallenge(ref) seq
 //@ func (nfc *NfcSession) InternalAuthenticate
 //@   props C11 C07
 //@   requires validNfc(nfc) && len(data) <= 65535
 //@   ensures "data-only-after-9000": err == nil ==> nfc.lastSW == 36864
+//@   proves "challenge-is-the-command-data": cApdu != nil && cApdu.ins == 136 && cApdu.cla == 0 && cApdu.p1 == 0 && cApdu.p2 == 0 && cApdu.data === data
+//@   defines err == nil ==> seqid(iaChallenge(ref(out)), data)
 //@   ensures err != nil ==> out == nil
 //@   ensures fresh(out)
 //@   assigns nfc.lastApduLogEntry, content(nfc.apduLog), content(nfc.sm), nfc.lastSW
